@@ -302,7 +302,7 @@ func c08(r *rep.Run) {
 		depth = 4
 		r.SetBudget(1800e9)
 	}
-	r.Rule = "three caller configs with different contents plus the nil config (constants, registered/undefined-mode variables, two names aliased to one variable key, operators with f declared stateless in two of them, costs, options, a stateless list with spare capacity) x 17 sources (every directive form incl. after an ordinary comment, sources failing at each parser stage, undefined variables, stateless and non-stateless operators). (1) every history of Compile(config_i, source_j) calls up to the depth bound (from the third step on the last call is one of 6 probing sources): after every call every config's public contents are unchanged and the result (error text, or Dump + DumpTable + behaviour on 3 bindings, each through a by-name and a by-key fetcher) equals the result of the same call made first on fresh equal configs, and every program compiled EARLIER in the history still dumps and behaves as it did; each history is also replayed to expose iteration-order nondeterminism. (2) copy histories: every chain of CopyConfig / NewConfig(ExtendConf) up to depth 3 followed by every single mutation (insert/overwrite/delete in each of the 5 maps, overwrite/append on the stateless list) of either side: the other side is unchanged. (3) every interleaving of 2 and 3 concurrent Compile calls on one shared config whose folding invokes the harness's stateless operator (scheduling point), plus a free-running race-detector pass (Compile + CopyConfig + ExtendConf on one config). non-trivial = histories in which a directive-bearing or failing compilation precedes another compilation"
+	r.Rule = "three caller configs with different contents plus the nil config (constants, registered/undefined-mode variables, two names aliased to one variable key, operators with f declared stateless in two of them, costs, options, a stateless list with spare capacity) x 17 sources (every directive form incl. after an ordinary comment, sources failing at each parser stage, undefined variables, stateless and non-stateless operators). (1) every history of Compile(config_i, source_j) calls up to the depth bound (from the third step on the last call is one of 6 probing sources): after every call every config's public contents are unchanged and the result (error text, or Dump + DumpTable + behaviour on 3 bindings, each through a by-name and a by-key fetcher) equals the result of the same call made first on fresh equal configs, and every program compiled EARLIER in the history still dumps and behaves as it did; each history is also replayed to expose iteration-order nondeterminism. (1b) edit histories: Compile, then the caller edits that config (every single mutation + same-length edits of the stateless list), then Compile of every probing source: the result equals that of a fresh config with the same edit, and a copy taken before the edit still gives the unedited result. (2) copy histories: every chain of CopyConfig / NewConfig(ExtendConf) up to depth 3 followed by every single mutation (insert/overwrite/delete in each of the 5 maps, overwrite/append on the stateless list) of either side: the other side is unchanged. (3) every interleaving of 2 and 3 concurrent Compile calls on one shared config whose folding invokes the harness's stateless operator (scheduling point), plus a free-running race-detector pass (Compile + CopyConfig + ExtendConf on one config). non-trivial = histories in which a directive-bearing or failing compilation precedes another compilation"
 	r.Assume = []string{"Config equality is equality of the exported fields (maps by content, operators by function identity)",
 		"scheduling points inside Compile exist only where it calls back into the environment (stateless operator during folding); the rest is covered by the race pass"}
 
@@ -457,8 +457,11 @@ func c08(r *rep.Run) {
 	r.Cov["history_depth"] = depth
 	r.Sample(3, map[string]interface{}{"history": []string{"Compile(configA, " + c8Sources[1] + ")", "Compile(configB, " + c8Sources[0] + ")", "Compile(configA, " + c8Sources[0] + ")"}})
 
+	// (1b) the caller EDITS a config between two compilations
+	edits := c08Edits(r, iso)
+
 	// (2) copy histories
-	copies := c08Copies(r)
+	copies := c08Copies(r) + edits
 
 	// (3) schedules
 	schedules, points := c08Schedules(r, iso)
@@ -478,6 +481,80 @@ func C08IsoMain(args []string) {
 	cfgs := c8Configs(&c8env{})
 	e, err := c8Compile(cfgs[ci], c8Sources[si])
 	fmt.Print(c8Result(e, err))
+}
+
+// c08Edits: Compile(config, s1); the caller edits that config (every single
+// mutation, plus same-length edits of the stateless list); Compile(config, s2)
+// for every probing source s2: the result is what a FRESH config with the same
+// edit gives, and a copy taken before the edit still gives the unedited result.
+func c08Edits(r *rep.Run, iso [][]string) int64 {
+	muts := c8Mutations()
+	repl := func(from, to string) func(c *eval.Config) {
+		return func(c *eval.Config) {
+			for i, n := range c.StatelessOperators {
+				if n == from {
+					c.StatelessOperators[i] = to
+				}
+			}
+		}
+	}
+	muts = append(muts,
+		c8mut{"Stateless replace f by g2 in place", repl("f", "g2")},
+		c8mut{"Stateless replace f by f0 in place", repl("f", "f0")},
+		c8mut{"Stateless new list of the same length", func(c *eval.Config) {
+			n := make([]string, len(c.StatelessOperators))
+			for i := range n {
+				n[i] = []string{"g2", "f0", "tup", "nosuch"}[i%4]
+			}
+			c.StatelessOperators = n
+		}},
+		c8mut{"Stateless set to nil", func(c *eval.Config) { c.StatelessOperators = nil }},
+		c8mut{"Stateless declare g2 and f", func(c *eval.Config) { c.StatelessOperators = []string{"g2", "f"} }})
+	var probes []int
+	for si := range c8Sources {
+		if c8Probe[si] {
+			probes = append(probes, si)
+		}
+	}
+	var n int64
+	type job struct{ ci, s1 int }
+	var jobs []job
+	for ci := 0; ci < 3; ci++ {
+		for s1 := range c8Sources {
+			jobs = append(jobs, job{ci, s1})
+		}
+	}
+	r.ParallelFor(len(jobs), func(w, j int) {
+		ci, s1 := jobs[j].ci, jobs[j].s1
+		r.Note(w, sprintf("edit histories config%c source %d", 'A'+ci, s1))
+		for mi, m := range muts {
+			for _, s2 := range probes {
+				cfgs := c8Configs(&c8env{})
+				_, _ = c8Compile(cfgs[ci], c8Sources[s1])
+				before := eval.CopyConfig(cfgs[ci])
+				m.do(cfgs[ci])
+				e, err := c8Compile(cfgs[ci], c8Sources[s2])
+				got := c8Result(e, err)
+				fresh := c8Configs(&c8env{})
+				m.do(fresh[ci])
+				fe, ferr := c8Compile(fresh[ci], c8Sources[s2])
+				want := c8Result(fe, ferr)
+				atomic.AddInt64(&n, 1)
+				d := map[string]interface{}{"history": []string{sprintf("Compile(config%c, %q)", 'A'+ci, c8Sources[s1]), "edit: " + m.name, sprintf("Compile(config%c, %q)", 'A'+ci, c8Sources[s2])}}
+				if got != want {
+					d["got"], d["fresh_config_with_the_same_edit"] = got, want
+					r.Violate("edit-result", sprintf("%d/%d/%d", ci, mi, s2), sprintf("after Compile(config%c, ...) and the edit %q, Compile(config%c, %q) differs from what a fresh config with the same edit gives", 'A'+ci, m.name, 'A'+ci, c8Sources[s2]), d)
+				}
+				ce, cerr := c8Compile(before, c8Sources[s2])
+				if cres := c8Result(ce, cerr); cres != iso[ci][s2] {
+					d["got"], d["isolated_unedited"] = cres, iso[ci][s2]
+					r.Violate("edit-reaches-copy", sprintf("%d/%d/%d", ci, mi, s2), sprintf("a copy of config%c taken BEFORE the edit %q compiles %q differently from the unedited config", 'A'+ci, m.name, c8Sources[s2]), d)
+				}
+			}
+		}
+	})
+	r.Cov["edit_histories"] = n
+	return n
 }
 
 // ---- copy independence ----
